@@ -820,26 +820,27 @@ theorem colsGood_insertRow (U : List Text) (store : String → DbVal → DbVal) 
   simpa [colNames, hcols] using this
 
 theorem ddlOk_of_good (U : List Text) (hU : CaseDistinctOn U) (T : Tables) (d : Desc) (hT : ColsGood U T)
-    (hd : DescGood U d) : ddlOk T d = true := by
-  simp only [ddlOk, List.all_eq_true, Bool.or_eq_true, Bool.not_eq_true']
+    (hd : DescGood U d) (hres : reservedName d.name = false) : ddlOk T d = true := by
+  simp only [ddlOk, hres, Bool.not_false, Bool.true_and, List.all_eq_true, Bool.or_eq_true, Bool.not_eq_true']
   intro t ht
   right
   obtain ⟨h1, h2⟩ := colsGood_ddl U T d hT hd t ht
   exact noClash_of_nodup U hU _ h1 h2
 
-/-- if all field names of a history are pairwise different up to case (and no descriptor repeats a field name),
-    SQLite accepts every CREATE TABLE / ADD COLUMN of the history -/
+/-- if all field names of a history are pairwise different up to case (and no descriptor repeats a field name) and
+    no type name begins with the reserved prefix `sqlite_`, SQLite accepts every CREATE TABLE / ADD COLUMN of the history -/
 theorem accepted_of_caseDistinct (U : List Text) (hU : CaseDistinctOn U) (store : String → DbVal → DbVal) :
     ∀ (ws : List (Desc × Option (List (Text × DbVal)))) (T : Tables), ColsGood U T → (∀ w ∈ ws, DescGood U w.1) →
-      accepted store T ws = true := by
+      (∀ w ∈ ws, reservedName w.1.name = false) → accepted store T ws = true := by
   intro ws
   induction ws with
-  | nil => intro T _ _; rfl
+  | nil => intro T _ _ _; rfl
   | cons w ws ih =>
-    intro T hT hws
+    intro T hT hws hres
     have hd := hws w List.mem_cons_self
     simp only [accepted, Bool.and_eq_true]
-    refine ⟨ddlOk_of_good U hU T w.1 hT hd, ih _ ?_ (fun w' hw' => hws w' (List.mem_cons_of_mem _ hw'))⟩
+    refine ⟨ddlOk_of_good U hU T w.1 hT hd (hres w List.mem_cons_self),
+      ih _ ?_ (fun w' hw' => hws w' (List.mem_cons_of_mem _ hw')) (fun w' hw' => hres w' (List.mem_cons_of_mem _ hw'))⟩
     unfold specStep
     split
     · exact colsGood_insertRow U store _ _ _ (colsGood_ddl U T w.1 hT hd)
